@@ -122,3 +122,13 @@ def register(claim, na):
           "a run that ended on its own leaves no pid file.",
           "Crash points are Python line events (a signal between two lines behaves as at the next line). The pid file is written by the harness before "
           "every launch (the scheduler writes it right after the spawn). Fork-server launch instead of a fresh interpreter.", "DESIGN.md 2.3, 3/C10")
+
+    claim("C19", "S+F", "exploration",
+          "exhaustive enumeration of filter expressions x tag/state assignments against a reference evaluator, and of workspace layouts x real CLI commands against expected deletion sets",
+          "(a) Every filter built from the atom alphabet (=, var=var, in, not in, ~ over two tags, @state, @name; pure and/or chains of <=3 atoms) is "
+          "compiled by the real createFilter and evaluated on 36 real job directories covering all tag/state assignments; (b) every two-job layout "
+          "(marker state incl. a re-launched job still carrying its failure marker x tag x membership in jobs / jobs.bak / none; thorough: three jobs) "
+          "is built on disk and `jobs clean` (+-filter, +-perform) and `orphans` (+-clean) are run through the real click CLI; the set of directories "
+          "that disappeared must equal the expected deletion set (nothing without --perform, never a job whose process is alive).",
+          "Closed alphabets (2 tags x 3 values, 4 states, 9 commands). Mixed and/or chains without parentheses are not enumerated (no documented "
+          "precedence). `jobs kill` is outside the statement.", "DESIGN.md 3/C19")
